@@ -45,10 +45,21 @@ def _rescale(o, v):
     return o * (v / float(o.value))
 
 
+def _make_pow(n):
+    return lambda x, d: x ** n - d            # one code object for the whole family: members differ in their closure only
+
+
+def _make_expo(sc):
+    return lambda x, d: anp.exp(sc * x) - d
+
+
 ROOTS = [
     # name, python f(x, d), expression f with leaf1 = x, leaves 2.. = d, inverse expression (leaves = d) or None, d values, guess
-    ('square', lambda x, d: x ** 2 - d, N('sub', N('pow', V(1), C(2)), V(2)), N('sqrt', V(1)), [1.7], 1.0),
-    ('cube', lambda x, d: x ** 3 - d, N('sub', N('pow', V(1), C(3)), V(2)), N('pow', V(1), C(1.0 / 3.0)), [2.3], 1.0),
+    ('square', _make_pow(2), N('sub', N('pow', V(1), C(2)), V(2)), N('sqrt', V(1)), [1.7], 1.0),
+    ('cube', _make_pow(3), N('sub', N('pow', V(1), C(3)), V(2)), N('pow', V(1), C(1.0 / 3.0)), [2.3], 1.0),
+    ('fourth', _make_pow(4), N('sub', N('pow', V(1), C(4)), V(2)), N('pow', V(1), C(0.25)), [1.9], 1.0),
+    ('expo_half', _make_expo(0.5), N('sub', N('exp', N('mul', C(0.5), V(1))), V(2)), N('mul', C(2.0), N('log', V(1))), [1.8], 1.0),
+    ('expo_m2', _make_expo(-2.0), N('sub', N('exp', N('mul', C(-2.0), V(1))), V(2)), N('mul', C(-0.5), N('log', V(1))), [0.4], 0.5),
     ('gauss', lambda x, d: anp.exp(-x ** 2) - d, N('sub', N('exp', N('neg', N('pow', V(1), C(2)))), V(2)), N('sqrt', N('neg', N('log', V(1)))), [0.45], 0.8),
     ('tanh', lambda x, d: anp.tanh(x) - d, N('sub', N('tanh', V(1)), V(2)), N('arctanh', V(1)), [0.55], 0.5),
     ('cubic', lambda x, d: x ** 3 + x - d, N('sub', N('add', N('pow', V(1), C(3)), V(1)), V(2)), None, [3.1], 1.0),
@@ -114,6 +125,8 @@ def quad_cases(rng, ctx, full):
             cls = str(rng.choice(['same', 'gapped', 'second_ensemble', 'multi_replica']))
             pvals = [v * float(rng.uniform(0.9, 1.1)) for v in pv]
             a, b = float(np.round(rng.uniform(-0.5, 0.4), 3)), float(np.round(rng.uniform(0.8, 2.0), 3))
+            if rng.random() < 0.3:
+                a, b = b, a                    # a reversed interval is a legitimate request: the integral changes sign
             nobs = sum(sub)
             obs = []
             if nobs:
